@@ -1,0 +1,46 @@
+//go:build verif
+
+package spdxlicenses
+
+// Contracts for the deductive verifier govc (see /verif/DESIGN.md).  Comments only.
+//
+// The table functions are single composite literals.  Callers see "a fresh
+// slice whose contents are the abstract constant table"; the facts about the
+// tables themselves are decided by the ground evaluator on the literals.
+
+//@ fn ActiveLen() int
+//@ fn ActiveAt(k int) string
+//@ fn DeprecatedLen() int
+//@ fn DeprecatedAt(k int) string
+//@ fn ExceptionLen() int
+//@ fn ExceptionAt(k int) string
+//@ fn RangeFamilies() int
+//@ fn RangeVersions(i int) int
+//@ fn RangeIds(i int, j int) int
+//@ fn RangeAt(i int, j int, k int) string
+
+//@ func spdxlicenses.GetLicenses
+//@   trusted ground-eval: the body is one composite literal of string constants (shape checked); the table is the abstract constant ActiveAt
+//@   ensures fresh(result) && len(result) == ActiveLen() && cap(result) == len(result)
+//@   ensures forall k :: 0 <= k && k < len(result) ==> result[k] == ActiveAt(k)
+//@ end
+
+//@ func spdxlicenses.GetDeprecated
+//@   trusted ground-eval: the body is one composite literal of string constants (shape checked); the table is the abstract constant DeprecatedAt
+//@   ensures fresh(result) && len(result) == DeprecatedLen() && cap(result) == len(result)
+//@   ensures forall k :: 0 <= k && k < len(result) ==> result[k] == DeprecatedAt(k)
+//@ end
+
+//@ func spdxlicenses.GetExceptions
+//@   trusted ground-eval: the body is one composite literal of string constants (shape checked); the table is the abstract constant ExceptionAt
+//@   ensures fresh(result) && len(result) == ExceptionLen() && cap(result) == len(result)
+//@   ensures forall k :: 0 <= k && k < len(result) ==> result[k] == ExceptionAt(k)
+//@ end
+
+//@ func spdxlicenses.LicenseRanges
+//@   trusted ground-eval: the body is one composite literal of string constants (shape checked); the table is the abstract constant RangeAt
+//@   ensures fresh(result) && len(result) == RangeFamilies()
+//@   ensures forall i :: 0 <= i && i < len(result) ==> fresh(result[i]) && len(result[i]) == RangeVersions(i)
+//@   ensures forall i, j :: 0 <= i && i < len(result) && 0 <= j && j < len(result[i]) ==> fresh(result[i][j]) && len(result[i][j]) == RangeIds(i, j)
+//@   ensures forall i, j, k :: 0 <= i && i < len(result) && 0 <= j && j < len(result[i]) && 0 <= k && k < len(result[i][j]) ==> result[i][j][k] == RangeAt(i, j, k)
+//@ end
